@@ -14,6 +14,7 @@ from .model import RefExpect, naive_search
 from .world import SimHang, HarnessError
 
 ALPHA = 'abc'
+EPS_US = 500000
 
 
 # ------------------------------------------------------------ generation
@@ -69,11 +70,16 @@ def gen_exact(rng, zero_ok):
     return ''.join(rng.choice(al) for _ in range(k))
 
 
-def gen_pats(rng, exact, zero_ok, markers):
+def gen_pats(rng, exact, zero_ok, markers, nomatch=False):
     n = rng.choice([1, 1, 2, 2, 3, 4, 6])
+    if nomatch:
+        n = rng.choice([0, 1, 1, 2, 3])
     pats = []
     for _ in range(n):
-        if exact:
+        if nomatch:
+            p = rng.choice(['x', 'xx', 'xa', 'ax', 'bxb'])
+            pats.append({'t': 'ex', 'p': p} if exact else {'t': 're', 'p': p + rng.choice(['', '+', '{2}'])})
+        elif exact:
             pats.append({'t': 'ex', 'p': gen_exact(rng, zero_ok)})
         else:
             pats.append({'t': 're', 'p': gen_regex(rng, zero_ok)})
@@ -128,9 +134,12 @@ def gen_dt(rng):
 def generate(rng, profile='engine'):
     """profile: 'engine' (C01-C03), 'eof' (C04)."""
     scn = {'family': 'engine', 'profile': profile}
-    tr = rng.choice(['fd'] * 6 + ['pty'] * 2 + ['sock'] * 1 + ['popen'] * 1)
+    if profile == 'eof':
+        tr = rng.choice(['fd'] * 3 + ['pty'] * 3 + ['sock'] * 2 + ['popen'] * 2)
+    else:
+        tr = rng.choice(['fd'] * 6 + ['pty'] * 2 + ['sock'] * 1 + ['popen'] * 1)
     scn['transport'] = tr
-    uni = rng.random() < 0.3 and tr != 'sock'
+    uni = rng.random() < 0.3
     if uni:
         scn['enc'] = 'utf-8'
     scn['costs'] = gen_costs(rng)
@@ -161,7 +170,7 @@ def generate(rng, profile='engine'):
         # keep boundaries on character boundaries only sometimes; C07 owns torn characters
         pass
     peer = []
-    nops = rng.randint(1, 12)
+    nops = rng.randint(1, 12) if profile != 'eof' else rng.randint(2, 9)
     for p in pieces:
         st = {'op': 'w', 'd': harness.l1(p)}
         if rng.random() < 0.12:
@@ -199,10 +208,16 @@ def generate(rng, profile='engine'):
         if ends and r < 0.36:
             ops.append({'op': rng.choice(['read', 'readlines', 'iter']), 'n': -1})
             continue
+        if profile == 'eof' and r < 0.38 and tr == 'sock':
+            pass
         exact = rng.random() < 0.4
         api = 'expect_exact' if exact else rng.choice(['expect', 'expect', 'expect_list'])
+        if profile == 'eof' and r < 0.40:
+            ops.append({'op': 'str'})
+            continue
         op = {'op': 'expect', 'api': api,
-              'pats': gen_pats(rng, exact, zero_ok, gen_markers(rng))}
+              'pats': gen_pats(rng, exact, zero_ok, gen_markers(rng),
+                               nomatch=(profile == 'eof' and rng.random() < 0.6))}
         tor = rng.random()
         if tor < 0.35:
             op['to'] = -1
@@ -361,6 +376,16 @@ def evaluate(r, clauses=None):
             return out
         if is_to or is_eof:
             name = 'TIMEOUT' if is_to else 'EOF'
+            if res['kind'] == 'match' and res['j'] == 0:
+                if V('C04.pending_match_lost', '%s reported although pattern %d already occurs in the searchable pending text '
+                     '(timeout %r)' % (name, res['index'], call['timeout']), call, model=_res_brief(res)):
+                    return out
+            if seen_eof and call['t1'] - call['t0'] > EPS_US:
+                if V('C04.after_eof_blocks', 'call after EOF took %.3f virtual s' % ((call['t1'] - call['t0']) / 1e6), call):
+                    return out
+            if seen_eof and is_to:
+                if V('C04.after_eof_timeout', 'TIMEOUT reported after EOF had been reported', call):
+                    return out
             if res['kind'] == 'match':
                 if V('C03.missed', '%s reported although pattern %d occurs in the searchable pending text after %d of %d reads'
                      % (name, res['index'], res['j'], len(chunks)), call, model=_res_brief(res)):
@@ -483,6 +508,9 @@ def evaluate(r, clauses=None):
             return out
         model.commit_match(res)
         pend = buf
+    for o in r.ops:
+        if o['op'] == 'str' and o['out'] != 'ret':
+            V('C04.diagnostic', 'str(spawn) raised %r' % (o.get('exc'),))
     # op-level API checks (read/readline/readlines/iter return values)
     _api_level(r, V)
     return out
